@@ -201,18 +201,28 @@ def closed_interval_after_change_quality():
         for d in (-2, -1, 0, 1, 2):
             quals = ["dd", "d", "P", "A", "AA"] if num in (1, 4, 5) else ["dd", "d", "m", "M", "A", "AA"]
             qi = quals.index(q) + d
+            for direction in ("up", "down"):
+                n += 1
+                iv = sc.Interval(num, q, direction)
+                if not 0 <= qi < len(quals):
+                    try:
+                        iv.change_quality(d)
+                        return False, n, {"input": [num, q, d], "what": "change beyond dd/AA accepted"}
+                    except ValueError:
+                        continue
+                iv.change_quality(d)
+                if iv.quality != quals[qi] or iv.semitones != S.interval_semitones(num, quals[qi]):
+                    return False, n, {"input": [num, q, d], "what": "after change_quality: quality %r semitones %r, expected %r/%r" % (
+                        iv.quality, iv.semitones, quals[qi], S.interval_semitones(num, quals[qi]))}
+                if iv.direction != direction or iv.number != num:
+                    return False, n, {"input": [num, q, direction, d], "what": "after change_quality: direction %r number %r (the requested direction and the number are not the quality's business)" % (iv.direction, iv.number)}
+    # the pitch class used when comparing chord members: step + alteration folded into 0..11 (C flat is 11, B sharp is 0)
+    from partitura.utils.music import step2pc
+    for step in "CDEFGAB":
+        for alter in range(-3, 4):
             n += 1
-            iv = sc.Interval(num, q)
-            if not 0 <= qi < len(quals):
-                try:
-                    iv.change_quality(d)
-                    return False, n, {"input": [num, q, d], "what": "change beyond dd/AA accepted"}
-                except ValueError:
-                    continue
-            iv.change_quality(d)
-            if iv.quality != quals[qi] or iv.semitones != S.interval_semitones(num, quals[qi]):
-                return False, n, {"input": [num, q, d], "what": "after change_quality: quality %r semitones %r, expected %r/%r" % (
-                    iv.quality, iv.semitones, quals[qi], S.interval_semitones(num, quals[qi]))}
+            if step2pc(step, alter) != (S.PC[step] + alter) % 12:
+                return False, n, {"input": [step, alter], "what": "step2pc = %r, twelve-tone arithmetic gives %r" % (step2pc(step, alter), (S.PC[step] + alter) % 12)}
     return True, n, ""
 
 
